@@ -4,8 +4,8 @@ from __future__ import annotations
 import json
 import sqlite3
 
-from .. import common, gen, rowcheck, sge
-from ..runner import Ctx, coq_bool, coq_eval, coq_list, coq_opt, coq_str, coq_z
+from .. import codoncheck as cc, common, gen, rowcheck, sge
+from ..runner import Ctx, coq_bool, coq_dna, coq_eval, coq_list, coq_opt, coq_str, coq_z
 
 IMPORTS = ['Model.Base', 'Model.Pattern', 'Model.Views', 'Model.ViewsGlue']
 
@@ -203,6 +203,15 @@ def check_design(ctx: Ctx, d: dict, r: dict):
             exp_annot.append(classify(tr[c1], tr[c2]))
         if rows[0]['pam_mut_annot'] != ';'.join(exp_annot):
             ctx.violation('spec_violation', f"pam_mut_annot: {rows[0]['pam_mut_annot']!r}, expected {';'.join(exp_annot)!r}", dict(case, kind='pam_mut_annot'))
+        # the same two columns through the Coq model (ppe_seq over the whole contig, then get_ppe_mut_types reading the completed codons from it)
+        if not d.get('bg'):
+            deftbl = [(r_[0], r_[1], cc.rank_of(r_[3])) for r_ in (d.get('codon_table') or gen.load_default_table())]
+            tbl = cc.coq_table(deftbl, d['strand'] == '-')
+            trs = cc.coq_transcript(exons, d['strand']) if exons else '(mkTr Plus [])'
+            ppes = coq_list(f"mkVar {e['pos']} {coq_dna(e['ref'])} {coq_dna(e['alt'])}" for e in listed)
+            coding = coq_list(coq_z(e['pos']) for e in applied if exons and (tc := gen.true_codon_positions(d, e['pos'])) is not None and None not in tc)
+            MODEL.append((f"pam_columns_agree (pam_columns {'true' if ids else 'false'} {tbl} {trs} 1 {coq_dna(U)} (mkRange {t['ref_start']} {t['ref_end']}) {ppes} {coding}) "
+                          f"{coq_str(rows[0]['pam_seq'])} {coq_str(rows[0]['pam_mut_annot'])}", dict(case, kind='pam_columns_model')))
         # sgRNA ids per row
         def codon_of(p):
             tc = gen.true_codon_positions(d, p) if exons else None
@@ -232,8 +241,36 @@ def files(ctx: Ctx):
     focus = {'p_bg': 0.0, 'p_pam': 1.0, 'n_pam': [1, 2, 3, 4, 5], 'p_custom': 0.4, 'allow_junction_pam': True, 'p_pam_outside': 0.2, 'p_gtf': 0.9, 'exon_lens': [4, 5, 7, 8, 10, 11, 13, 17, 21, 30],
              'custom_kinds': ['snv', 'del', 'del', 'ins', 'mnv'], 'p_pam_edge': 0.1}
     designs = [gen.gen_sge(ctx.rng, focus) for _ in range(n)]
+    MODEL.clear()
     for d, r in pool_map_designs(designs):
         check_design(ctx, d, r)
+    model_columns(ctx)
+
+
+MODEL: list = []
+PAM_IMPORTS = ['Model.Base', 'Model.Pattern', 'Model.Gpo', 'Model.CodonTable', 'Model.Transcript', 'Model.PpeSeq', 'Model.PamAnnot']
+
+
+def model_columns(ctx: Ctx):
+    if not MODEL:
+        return
+    exprs = [e for e, _ in MODEL]
+    bad, err = coq_eval(PAM_IMPORTS, exprs, chunk=60)
+    ctx.corr['cases'] += len(exprs)
+    ctx.count('pam_columns_through_model', len(exprs))
+    if err:
+        ctx.violation('correspondence', 'model evaluation failed: ' + err[:300], broken='coqc cases (C07 pam columns)', no_input=True)
+    for i in bad[:20]:
+        ctx.corr['disagreements'] += 1
+        ctx.violation('correspondence', f"pam_seq / pam_mut_annot of {MODEL[i][1]['targeton']} differ from the model (ppe_seq + ppe_mut_types)", MODEL[i][1],
+                      broken='correspondence S-file get_ppe_seq / Targeton.get_ppe_mut_types (Model/PpeSeq.v, Model/PamAnnot.v)')
+    # negative control: a changed annotation in the implementation's answer must be rejected
+    ctl = [e[:e.rindex('"', 0, len(e) - 1)] + '"non;non;non;non;non;non"' for e in exprs[:3]]
+    badc, _ = coq_eval(PAM_IMPORTS, ctl)
+    ctx.controls['run'] += len(ctl)
+    ctx.controls['rejected'] += len(badc)
+    if len(badc) != len(ctl):
+        ctx.violation('control', 'comparator accepted a perturbed pam_mut_annot', broken='negative control', no_input=True)
 
 
 def pool_map_designs(designs):
@@ -280,7 +317,9 @@ def replay(ctx: Ctx, path: str) -> int:
                 bad = bad or got != spec_ids([tuple(x) for x in exons], [tuple(x) for x in ppes], pos, len(ref))
     elif 'design' in c:
         d, r = design_case(c['design'])
+        MODEL.clear()
         check_design(ctx, d, r)
+        model_columns(ctx)
         bad = bool(ctx.violations)
     else:
         print('replay: obligation-only replay file')
